@@ -223,3 +223,6 @@ def run(ctx, proofs_ok):
     apicheck.run_resp_streams(ctx, [
         {"label": "list commands over the network protocol (handlers: option words in any case, counts, indexes, wrong arity) against the model", "fams": ['lists', 'lists', 'lists', 'keyspace'], "n": (2500, 8000), "count": (2, 16), "conns": 1},
     ])
+    # a second oracle that owes nothing to the model: the documented Redis semantics (bin/refredis.py)
+    from checks import refcheck
+    refcheck.run(ctx, "llk", "lists against the reference implementation of the documented semantics")
